@@ -195,6 +195,13 @@ def handle : List String → String
           let bases := joinList (((rs.map fun r => (r.rev, r.base, 0)).mergeSort tripleLe).map fun t => s!"{t.1}.{t.2.1}")
           s!"ok {showIds (rs.map (·.rev))} {showOptNat (rs.head?.map (·.rev))} {bases} | {showRepo t'}"
     | _, _, _, _ => "bad-op"
+  | ["prop", line] =>
+    match strOfHex (String.ofList (line.toList.drop 1)) with
+    | some s =>
+      match parsePropLine s with
+      | some (k, v) => s!"ok k{hexOfStr k} v{hexOfStr v}"
+      | none => "E:ValueError"
+    | none => "bad-op"
   | ["md.to", stanza, patch, bundle] =>
     match parseLines stanza, parseOptBytes patch, parseOptBytes bundle with
     | some s, some p, some b => showLines (toLines blockCodec ⟨s, p, b⟩)
